@@ -305,3 +305,758 @@ From V Require Proofs.ConstsTie.
 Theorem C10_constants_match_source : ConstsTie.psbt_magic_is_source_stmt.
 Proof. exact ConstsTie.psbt_magic_is_source. Qed.
 Print Assumptions C10_constants_match_source.
+
+(* ================================================================== *)
+(* Additions of the deepening pass                                     *)
+From V Require Import Model.PsbtSign Model.PsbtState Model.Base64 Model.PsbtB64
+  Proofs.PsbtMembP Proofs.PsbtFinal2P Proofs.PsbtSignP Proofs.PsbtStateP Proofs.PsbtRefutedP
+  Proofs.Base64P Proofs.PsbtB64P.
+From V Require Model.Op Model.Interp Model.Pecc Model.Verify Proofs.VerifyP Proofs.VerifyCompleteP
+  Proofs.PsbtVerifyP Proofs.PsbtSignFinalP.
+
+(* ------------------------------------------------------------------ *)
+(* (7) what PSBT.combine preserves: nothing is dropped, nothing is invented.
+   [in_combine_spec sa sb sc]: every partial signature of sc is one of sb, or one of sa under a key sb
+   does not have (and conversely); derivations / unknown entries likewise with self winning; the
+   final scriptSig / witness and the UTXOs / scripts of self always win. *)
+
+Theorem C10_combine_membership : forall a b : psbt,
+  good a -> good b ->
+  p_tx (comb a b) = p_tx a /\
+  length (p_ins (comb a b)) = length (p_ins a) /\
+  length (p_outs (comb a b)) = length (p_outs a) /\
+  (forall j sa sb, nth_error (p_ins a) j = Some sa -> nth_error (p_ins b) j = Some sb ->
+     exists sc, nth_error (p_ins (comb a b)) j = Some sc /\ in_combine_spec sa sb sc) /\
+  (forall j sa sb, nth_error (p_outs a) j = Some sa -> nth_error (p_outs b) j = Some sb ->
+     exists sc, nth_error (p_outs (comb a b)) j = Some sc /\ out_combine_spec sa sb sc) /\
+  (forall k v, dget (p_hd (comb a b)) k = Some v <->
+     dget (p_hd a) k = Some v \/ (dget (p_hd a) k = None /\ dget (p_hd b) k = Some v)) /\
+  (forall k v, dget (p_extra (comb a b)) k = Some v <->
+     dget (p_extra a) k = Some v \/ (dget (p_extra a) k = None /\ dget (p_extra b) k = Some v)).
+Proof. exact comb_membership. Qed.
+Print Assumptions C10_combine_membership.
+
+Theorem C10_combine_sigs_union : forall (a b : psbt) j sa sb,
+  good a -> good b -> compat a b ->
+  nth_error (p_ins a) j = Some sa -> nth_error (p_ins b) j = Some sb ->
+  exists sc, nth_error (p_ins (comb a b)) j = Some sc /\
+    forall k v, dget (pi_sigs sc) k = Some v <-> dget (pi_sigs sa) k = Some v \/ dget (pi_sigs sb) k = Some v.
+Proof. exact comb_sigs_union. Qed.
+Print Assumptions C10_combine_sigs_union.
+
+(* a finalised accumulator keeps its own final fields (two PSBTs finalised from different signer
+   subsets: the result carries self's finalisation) *)
+Theorem C10_combine_keeps_own_finalisation : forall (a b : psbt) j sa ss,
+  nth_error (p_ins a) j = Some sa -> pi_script_sig sa = Some ss ->
+  exists sc, nth_error (p_ins (comb a b)) j = Some sc /\ pi_script_sig sc = Some ss /\
+             (forall w, pi_witness sa = Some w -> pi_witness sc = Some w).
+Proof. exact comb_keeps_own_finalisation. Qed.
+Print Assumptions C10_combine_keeps_own_finalisation.
+
+(* (8) order independence carried through finalize, the finalised bytes and final_tx *)
+Theorem C10_workflow_final_order_independent :
+  forall (verify_tx : tx -> bool) (base : psbt) (l l' : list psbt),
+  Permutation l l' -> family (base :: l) ->
+  finalize (fold_left comb l base) = finalize (fold_left comb l' base) /\
+  (bind (finalize (fold_left comb l base)) psbt_serialize
+   = bind (finalize (fold_left comb l' base)) psbt_serialize) /\
+  (bind (finalize (fold_left comb l base)) (final_tx verify_tx)
+   = bind (finalize (fold_left comb l' base)) (final_tx verify_tx)).
+Proof. exact workflow_final_order_independent. Qed.
+Print Assumptions C10_workflow_final_order_independent.
+
+(* ------------------------------------------------------------------ *)
+(* (9) the finaliser computed exactly (success IFF the threshold is met) and the extractor.
+   [threshold_met m cs sigs] = m <= number of partial signatures  &&  m <= number of signatures by
+   keys of the script; [script_sigs cs sigs] = the signatures by keys of the script, in script order. *)
+
+Theorem C10_finalize_p2wsh_exact : forall st ti spk ws c0 r m raw ss,
+  in_script_pubkey st ti = Ok (Some spk) ->
+  (negb (is_p2sh (s_cmds spk)) || is_some (pi_redeem st)) = true ->
+  (is_p2wpkh (s_cmds spk) || opt_is is_p2wpkh (pi_redeem st)) = false ->
+  (is_p2wsh (s_cmds spk) || opt_is is_p2wsh (pi_redeem st)) = true ->
+  pi_wscript st = Some ws -> s_cmds ws = c0 :: r -> op_code_to_number c0 = Ok m -> 1 <= m ->
+  raw_serialize ws = Ok raw -> redeem_script_sig (pi_redeem st) = Ok ss ->
+  in_finalize st ti =
+    if threshold_met m (s_cmds ws) (pi_sigs st)
+    then Ok (finalized st ss
+               (Some ([] :: firstn (Z.to_nat m) (script_sigs (s_cmds ws) (pi_sigs st)) ++ [raw])))
+    else Err.
+Proof. exact in_finalize_p2wsh_exact. Qed.
+Print Assumptions C10_finalize_p2wsh_exact.
+
+Theorem C10_finalize_p2sh_exact : forall st ti spk rs c0 r m raw,
+  in_script_pubkey st ti = Ok (Some spk) ->
+  is_p2sh (s_cmds spk) = true ->
+  pi_redeem st = Some rs ->
+  (is_p2wpkh (s_cmds spk) || is_p2wpkh (s_cmds rs)) = false ->
+  (is_p2wsh (s_cmds spk) || is_p2wsh (s_cmds rs)) = false ->
+  s_cmds rs = c0 :: r -> op_code_to_number c0 = Ok m -> 1 <= m ->
+  raw_serialize rs = Ok raw ->
+  in_finalize st ti =
+    if threshold_met m (s_cmds rs) (pi_sigs st)
+    then Ok (finalized st
+               (mk_script (Op 0 :: map Push (firstn (Z.to_nat m) (script_sigs (s_cmds rs) (pi_sigs st)))
+                                ++ [Push raw]))
+               (pi_witness st))
+    else Err.
+Proof. exact in_finalize_p2sh_exact. Qed.
+Print Assumptions C10_finalize_p2sh_exact.
+
+Theorem C10_finalize_single_exact : forall st ti spk,
+  in_script_pubkey st ti = Ok (Some spk) ->
+  (negb (is_p2sh (s_cmds spk)) || is_some (pi_redeem st)) = true ->
+  ((is_p2wpkh (s_cmds spk) || opt_is is_p2wpkh (pi_redeem st)) = true ->
+   in_finalize st ti =
+     match pi_sigs st with
+     | [(sec, sg)] => ss <- redeem_script_sig (pi_redeem st) ;; Ok (finalized st ss (Some [sg; sec]))
+     | _ => Err
+     end) /\
+  (is_p2pkh (s_cmds spk) = true ->
+   opt_is is_p2wpkh (pi_redeem st) = false -> opt_is is_p2wsh (pi_redeem st) = false ->
+   in_finalize st ti =
+     match pi_sigs st with
+     | [(sec, sg)] => Ok (finalized st (mk_script [Push sg; Push sec]) (pi_witness st))
+     | _ => Err
+     end).
+Proof. exact in_finalize_single_exact. Qed.
+Print Assumptions C10_finalize_single_exact.
+
+(* with pairwise different script keys the first threshold test is implied by the second *)
+Theorem C10_threshold_standard_multisig : forall m keys (sigs : dict bytes),
+  NoDup keys ->
+  threshold_met m (msig_cmds m keys) sigs = (m <=? zlen (key_sigs keys sigs)) /\
+  script_sigs (msig_cmds m keys) sigs = key_sigs keys sigs.
+Proof.
+  intros m keys sigs H. split; [now apply msig_threshold|].
+  rewrite script_sigs_pushes. now rewrite pushes_msig.
+Qed.
+Print Assumptions C10_threshold_standard_multisig.
+
+(* final_tx hands verify() exactly the unsigned transaction with the final fields put in *)
+Theorem C10_assemble_tx_exact : forall (p : psbt) t0,
+  tx_clone (p_tx p) = Ok t0 -> length (t_ins t0) = length (p_ins p) ->
+  let segwit := t_segwit t0 || existsb (fun st => truthy_wit (pi_witness st)) (p_ins p) in
+  ((exists t, assemble_tx p = Ok t) <-> Forall (fun st => pi_script_sig st <> None) (p_ins p)) /\
+  forall t, assemble_tx p = Ok t ->
+    t_version t = t_version t0 /\ t_outs t = t_outs t0 /\ t_locktime t = t_locktime t0 /\
+    t_segwit t = segwit /\ length (t_ins t) = length (t_ins t0) /\
+    forall j ti st, nth_error (t_ins t0) j = Some ti -> nth_error (p_ins p) j = Some st ->
+      exists ti', nth_error (t_ins t) j = Some ti' /\ filled segwit ti st ti'.
+Proof. exact assemble_tx_exact. Qed.
+Print Assumptions C10_assemble_tx_exact.
+
+Theorem C10_tx_clone_exact : forall t, tx_exact t -> tx_clone t = Ok t.
+Proof. intros t (b & H1 & _ & H2). apply tx_clone_exact. eauto. Qed.
+Print Assumptions C10_tx_clone_exact.
+
+(* ------------------------------------------------------------------ *)
+(* (10) finalize composed with the C06 model of Tx.verify_input (Model/Verify.v): m-of-n wallets *)
+
+Theorem C10_finalize_p2wsh_multisig_verifies :
+  forall C ripemd160 sha1 sha256 hash160 hash256 so c st ti spk ws m keys raw,
+  in_script_pubkey st ti = Ok (Some spk) ->
+  s_cmds spk = p2wsh_script (sha256 raw) -> length (sha256 raw) = 32%nat ->
+  pi_redeem st = None -> pi_wscript st = Some ws ->
+  s_cmds ws = VerifyP.multisig_script m keys -> raw_serialize ws = Ok raw ->
+  Verify.parse_cmds raw = Ok (VerifyP.multisig_script m keys) ->
+  1 <= m <= 16 -> 1 <= zlen keys <= 16 -> NoDup keys ->
+  let got := firstn (Z.to_nat m) (key_sigs keys (pi_sigs st)) in
+  ((exists st', in_finalize st ti = Ok st') <-> m <= zlen (key_sigs keys (pi_sigs st))) /\
+  forall st', in_finalize st ti = Ok st' ->
+    st' = finalized st (mk_script []) (Some ([] :: got ++ [raw])) /\ zlen got = m /\
+    (VerifyCompleteP.nonempty_sigs got = true -> Op.so_multisig so (rev keys) (rev got) = Ok true ->
+     Verify.verify_input C ripemd160 sha1 sha256 hash160 hash256 so c ([] :: got ++ [raw]) [] (s_cmds spk)
+     = Interp.OTrue).
+Proof. exact PsbtVerifyP.finalize_p2wsh_multisig. Qed.
+Print Assumptions C10_finalize_p2wsh_multisig_verifies.
+
+Theorem C10_finalize_p2sh_p2wsh_multisig_verifies :
+  forall C ripemd160 sha1 sha256 hash160 hash256 so c st ti spk rs ws m keys raw,
+  let redeem := 0 :: 32 :: sha256 raw in
+  in_script_pubkey st ti = Ok (Some spk) ->
+  s_cmds spk = p2sh_script (hash160 redeem) -> length (hash160 redeem) = 20%nat ->
+  pi_redeem st = Some rs -> s_cmds rs = p2wsh_script (sha256 raw) -> s_raw rs = None ->
+  length (sha256 raw) = 32%nat ->
+  pi_wscript st = Some ws ->
+  s_cmds ws = VerifyP.multisig_script m keys -> raw_serialize ws = Ok raw ->
+  Verify.parse_cmds raw = Ok (VerifyP.multisig_script m keys) ->
+  1 <= m <= 16 -> 1 <= zlen keys <= 16 -> NoDup keys ->
+  let got := firstn (Z.to_nat m) (key_sigs keys (pi_sigs st)) in
+  ((exists st', in_finalize st ti = Ok st') <-> m <= zlen (key_sigs keys (pi_sigs st))) /\
+  forall st', in_finalize st ti = Ok st' ->
+    st' = finalized st (mk_script [Push redeem]) (Some ([] :: got ++ [raw])) /\ zlen got = m /\
+    (VerifyCompleteP.nonempty_sigs got = true -> Op.so_multisig so (rev keys) (rev got) = Ok true ->
+     Verify.verify_input C ripemd160 sha1 sha256 hash160 hash256 so c ([] :: got ++ [raw]) [Push redeem]
+       (s_cmds spk) = Interp.OTrue).
+Proof. exact PsbtVerifyP.finalize_p2sh_p2wsh_multisig. Qed.
+Print Assumptions C10_finalize_p2sh_p2wsh_multisig_verifies.
+
+Theorem C10_finalize_p2sh_multisig_verifies :
+  forall C ripemd160 sha1 sha256 hash160 hash256 so c st ti spk rs m keys raw,
+  in_script_pubkey st ti = Ok (Some spk) ->
+  s_cmds spk = p2sh_script (hash160 raw) -> length (hash160 raw) = 20%nat ->
+  pi_redeem st = Some rs ->
+  s_cmds rs = VerifyP.multisig_script m keys -> raw_serialize rs = Ok raw ->
+  Verify.parse_cmds raw = Ok (VerifyP.multisig_script m keys) ->
+  1 <= m <= 16 -> 1 <= zlen keys <= 16 -> NoDup keys ->
+  let got := firstn (Z.to_nat m) (key_sigs keys (pi_sigs st)) in
+  let ss := Op 0 :: map Push got ++ [Push raw] in
+  ((exists st', in_finalize st ti = Ok st') <-> m <= zlen (key_sigs keys (pi_sigs st))) /\
+  forall st', in_finalize st ti = Ok st' ->
+    st' = finalized st (mk_script ss) (pi_witness st) /\ zlen got = m /\
+    (VerifyCompleteP.nonempty_sigs got = true -> Op.so_multisig so (rev keys) (rev got) = Ok true ->
+     forall w, Verify.verify_input C ripemd160 sha1 sha256 hash160 hash256 so c w ss (s_cmds spk)
+               = Interp.OTrue).
+Proof. exact PsbtVerifyP.finalize_p2sh_multisig. Qed.
+Print Assumptions C10_finalize_p2sh_multisig_verifies.
+
+(* ------------------------------------------------------------------ *)
+(* (11) the Signer (Model/PsbtSign.v: PSBT.sign_with_private_keys).  [sign_each keys base]: every key
+   signs its own copy of base; [all_fresh keys base]: no input of base carries a signature under one
+   of the keys yet. *)
+
+Theorem C10_sign_keys_is_fold_comb : forall sign_segwit sign_legacy base keys,
+  good base -> all_fresh keys base ->
+  sign_keys sign_segwit sign_legacy keys base =
+  match sign_each sign_segwit sign_legacy keys base with
+  | Ok cs => Ok (fold_left comb (map fst cs) base, existsb snd cs)
+  | Err => Err
+  end.
+Proof. exact sign_keys_is_fold_comb. Qed.
+Print Assumptions C10_sign_keys_is_fold_comb.
+
+(* the individually signed copies satisfy the hypotheses of C10_workflow_order_independent *)
+Theorem C10_sign_copies_family : forall sign_segwit sign_legacy base keys cs,
+  good base -> all_fresh keys base -> sign_each sign_segwit sign_legacy keys base = Ok cs ->
+  family (base :: map fst cs).
+Proof. exact sign_each_family. Qed.
+Print Assumptions C10_sign_copies_family.
+
+Theorem C10_sign_keys_order_independent : forall sign_segwit sign_legacy base keys keys',
+  good base -> all_fresh keys base -> Permutation keys keys' ->
+  sign_keys sign_segwit sign_legacy keys base = sign_keys sign_segwit sign_legacy keys' base.
+Proof. exact sign_keys_order_independent. Qed.
+Print Assumptions C10_sign_keys_order_independent.
+
+(* sign -> finalize -> verify_input for a native P2WSH m-of-n input: finalisable exactly when at
+   least m script keys are among the signers, with the first m of their signatures in script order *)
+Theorem C10_sign_finalize_verify_p2wsh :
+  forall sign_segwit sign_legacy C ripemd160 sha1 sha256 hash160 hash256 so c
+         K p P b j a ti spk ws m keys raw,
+  sign_keys sign_segwit sign_legacy K p = Ok (P, b) ->
+  nth_error (p_ins p) j = Some a -> nth_error (t_ins (p_tx p)) j = Some ti ->
+  (forall k, In k keys -> dget (pi_sigs a) k = None) ->
+  in_script_pubkey a ti = Ok (Some spk) ->
+  s_cmds spk = p2wsh_script (sha256 raw) -> length (sha256 raw) = 32%nat ->
+  pi_redeem a = None -> pi_wscript a = Some ws ->
+  s_cmds ws = VerifyP.multisig_script m keys -> raw_serialize ws = Ok raw ->
+  Verify.parse_cmds raw = Ok (VerifyP.multisig_script m keys) ->
+  1 <= m <= 16 -> 1 <= zlen keys <= 16 -> NoDup keys ->
+  let signers := filter (fun k => PsbtSignFinalP.mem k K && PsbtSignFinalP.named a k) keys in
+  let got := firstn (Z.to_nat m)
+               (map (PsbtSignFinalP.the_sig sign_segwit sign_legacy (p_tx p) (Z.of_nat j) a ti) signers) in
+  exists x, nth_error (p_ins P) j = Some x /\
+    ((exists x', in_finalize x ti = Ok x') <-> m <= zlen signers) /\
+    forall x', in_finalize x ti = Ok x' ->
+      pi_script_sig x' = Some (mk_script []) /\ pi_witness x' = Some ([] :: got ++ [raw]) /\
+      (VerifyCompleteP.nonempty_sigs got = true -> Op.so_multisig so (rev keys) (rev got) = Ok true ->
+       Verify.verify_input C ripemd160 sha1 sha256 hash160 hash256 so c ([] :: got ++ [raw]) []
+         (s_cmds spk) = Interp.OTrue).
+Proof. exact PsbtSignFinalP.sign_finalize_verify_p2wsh. Qed.
+Print Assumptions C10_sign_finalize_verify_p2wsh.
+
+(* ------------------------------------------------------------------ *)
+(* (12) PSBT.validate() as a state transformer of the unsigned transaction (Model/PsbtState.v) *)
+
+Theorem C10_validate_state_verdict :
+  forall hash160 sha256 hash256 sig_parse_ok ecdsa_verify sighash_legacy sighash_segwit verify_input
+         descends p,
+  fst (validate_state hash160 sha256 hash256 sig_parse_ok ecdsa_verify sighash_legacy sighash_segwit
+                      verify_input descends p)
+  = validate hash160 sha256 hash256 sig_parse_ok ecdsa_verify sighash_legacy sighash_segwit
+             verify_input descends p.
+Proof. exact validate_state_verdict. Qed.
+Print Assumptions C10_validate_state_verdict.
+
+Theorem C10_validate_state_ok :
+  forall hash160 sha256 hash256 sig_parse_ok ecdsa_verify sighash_legacy sighash_segwit verify_input
+         descends p t',
+  validate_state hash160 sha256 hash256 sig_parse_ok ecdsa_verify sighash_legacy sighash_segwit
+                 verify_input descends p = (Ok tt, t') ->
+  t' = with_tx_ins (p_tx p) (settled (p_ins p) (t_ins (p_tx p))) /\
+  (Forall (fun st => pi_script_sig st = None) (p_ins p) -> t' = p_tx p).
+Proof.
+  intros. split; [eapply validate_state_ok; eauto|]. intros F. eapply validate_state_unfinalised; eauto.
+Qed.
+Print Assumptions C10_validate_state_ok.
+
+(* known finding K-C10-validate-leaves-scriptsig *)
+Theorem C10_validate_leaves_scriptsig_refuted :
+  forall hash160 sha256 hash256 sig_parse_ok ecdsa_verify sighash_legacy sighash_segwit verify_input descends,
+  verify_input vw_tx 0 (mk_script [Op 81]) None <> Ok true ->
+  let vs := validate_state hash160 sha256 hash256 sig_parse_ok ecdsa_verify sighash_legacy
+                           sighash_segwit verify_input descends vw_p in
+  fst vs = Err /\ snd vs <> vw_tx /\
+  forall ins outs hd extra,
+    validate hash160 sha256 hash256 sig_parse_ok ecdsa_verify sighash_legacy sighash_segwit
+             verify_input descends
+             {| p_tx := snd vs; p_ins := ins; p_outs := outs; p_hd := hd; p_extra := extra |} <> Ok tt.
+Proof. exact validate_leaves_scriptsig_refuted. Qed.
+Print Assumptions C10_validate_leaves_scriptsig_refuted.
+
+(* ------------------------------------------------------------------ *)
+(* (13) the codec clauses that are false of the faithful model (known findings
+   K-C10-xpub-network-order, K-C10-duplicate-script-key), with witnesses replayed on /repo *)
+
+Theorem C10_reserialize_xpub_networks_refuted :
+  forall hash160 sha256 hash256 sec_ok0 sig_parse_ok ecdsa_verify sighash_legacy sighash_segwit
+         verify_input descends,
+  let sec_ok := fun b => beq b g_sec || sec_ok0 b in
+  let parse := psbt_parse hash160 sha256 hash256 sec_ok sig_parse_ok ecdsa_verify sighash_legacy
+                          sighash_segwit verify_input descends in
+  parse xw_bytes = Ok (xw_p1, Some Testnet) /\ psbt_serialize xw_p1 = Ok xw_b1 /\
+  parse xw_b1 = Ok (xw_p2, Some Mainnet) /\ psbt_serialize xw_p2 = Ok xw_b2 /\
+  xw_b1 <> xw_b2.
+Proof. exact reserialize_xpub_networks_refuted. Qed.
+Print Assumptions C10_reserialize_xpub_networks_refuted.
+
+Theorem C10_input_map_duplicate_script_key_refuted :
+  in_serialize dup_in = Ok dup_bytes /\
+  forall sec_ok net ti,
+    in_loop sec_ok (S (length dup_bytes)) net ti dup_bytes empty_in = Err.
+Proof. exact input_map_duplicate_script_key_refuted. Qed.
+Print Assumptions C10_input_map_duplicate_script_key_refuted.
+
+(* ------------------------------------------------------------------ *)
+(* (14) the base64 text layer: PSBT.serialize_base64 / PSBT.parse_base64 *)
+
+Theorem C10_base64_roundtrip : forall b, bytes_ok b ->
+  b64_decode_bytes (b64_encode b) = Ok b /\ b64_decode_str (b64_encode b) = Ok b /\
+  length (b64_encode b) = (4 * ((length b + 2) / 3))%nat.
+Proof.
+  intros b H. split; [now apply b64_roundtrip|]. split; [now apply b64_roundtrip_str|].
+  now apply (b64_encode_length (length b)).
+Qed.
+Print Assumptions C10_base64_roundtrip.
+
+Theorem C10_parse_base64_encode :
+  forall hash160 sha256 hash256 sec_ok sig_parse_ok ecdsa_verify sighash_legacy sighash_segwit
+         verify_input descends b is_str,
+  bytes_ok b ->
+  psbt_parse_base64 hash160 sha256 hash256 sec_ok sig_parse_ok ecdsa_verify sighash_legacy
+                    sighash_segwit verify_input descends is_str (b64_encode b)
+  = psbt_parse hash160 sha256 hash256 sec_ok sig_parse_ok ecdsa_verify sighash_legacy
+               sighash_segwit verify_input descends b.
+Proof. exact parse_base64_encode. Qed.
+Print Assumptions C10_parse_base64_encode.
+
+Theorem C10_psbt_base64_roundtrip :
+  forall hash160 sha256 hash256 sec_ok sig_parse_ok ecdsa_verify sighash_legacy sighash_segwit
+         verify_input descends N (p : psbt) t is_str,
+  canonical sec_ok N p ->
+  validate hash160 sha256 hash256 sig_parse_ok ecdsa_verify sighash_legacy sighash_segwit
+           verify_input descends p = Ok tt ->
+  psbt_serialize_base64 p = Ok t ->
+  (forall b, psbt_serialize p = Ok b -> bytes_ok b) ->
+  exists o, psbt_parse_base64 hash160 sha256 hash256 sec_ok sig_parse_ok ecdsa_verify sighash_legacy
+                              sighash_segwit verify_input descends is_str t = Ok (p, o) /\
+            psbt_serialize_base64 p = Ok t.
+Proof. exact psbt_base64_roundtrip. Qed.
+Print Assumptions C10_psbt_base64_roundtrip.
+
+(* helper.base64_decode is b64decode in its non-validating mode: text no encoder produces is accepted *)
+Theorem C10_base64_decode_lenient_refuted :
+  b64_decode_bytes [81; 81; 61; 61] = Ok [65] /\
+  b64_decode_bytes [81; 81; 61; 61; 81; 85; 74; 68] = Ok [65] /\
+  b64_decode_bytes [81; 33; 81; 10; 61; 32; 61] = Ok [65] /\
+  b64_decode_bytes [61; 81; 82; 61; 61; 61] = Ok [65] /\
+  b64_decode_bytes [81; 81; 61] = Err /\ b64_decode_bytes [81] = Err.
+Proof. exact b64_decode_not_injective_refuted. Qed.
+Print Assumptions C10_base64_decode_lenient_refuted.
+
+(* ------------------------------------------------------------------ *)
+(* non-vacuity of (9)-(11) on the 2-of-3 P2WSH input of the examples above, with the hash oracle
+   [fun _ => repeatz 9 32] (the program of [ex_in]) and an OP_CHECKMULTISIG oracle that accepts *)
+
+Definition ex_keys : list bytes := [[2; 1]; [2; 2]; [2; 3]].
+Definition ex_raw : bytes := [82; 2;2;1; 2;2;2; 2;2;3; 83; 174].
+Definition ex_so : Op.sigops :=
+  {| Op.so_checksig := fun _ _ => Err; Op.so_multisig := fun _ _ => Ok true;
+     Op.so_xonly_ok := fun _ => false; Op.so_schnorr := fun _ _ _ => Err |}.
+Definition ex_ctx : Op.txctx := {| Op.t_locktime := 0; Op.t_sequence := 0; Op.t_version := 2 |}.
+
+Example finalize_verifies_instance :
+  let sigs := [([2; 1], [48; 1]); ([2; 3], [48; 3])] in
+  exists st', in_finalize (ex_in sigs) ex_ti = Ok st' /\
+    pi_witness st' = Some [[]; [48; 1]; [48; 3]; ex_raw] /\
+    Verify.verify_input Pecc.secp256k1 (fun _ => []) (fun _ => []) (fun _ => repeatz 9 32) (fun _ => [])
+      (fun _ => []) ex_so ex_ctx [[]; [48; 1]; [48; 3]; ex_raw] [] [Op 0; Push (repeatz 9 32)] = Interp.OTrue.
+Proof.
+  intros sigs.
+  assert (N : NoDup ex_keys) by (repeat constructor; cbn; intuition discriminate).
+  assert (Hk : 1 <= zlen ex_keys <= 16) by (vm_compute; split; discriminate).
+  destruct (PsbtVerifyP.finalize_p2wsh_multisig Pecc.secp256k1 (fun _ => []) (fun _ => [])
+              (fun _ => repeatz 9 32) (fun _ => []) (fun _ => []) ex_so ex_ctx (ex_in sigs) ex_ti
+              (mk_script [Op 0; Push (repeatz 9 32)]) ex_ws 2 ex_keys ex_raw
+              eq_refl eq_refl eq_refl eq_refl eq_refl eq_refl eq_refl eq_refl ltac:(lia) Hk N) as [F1 F2].
+  destruct (proj2 F1) as [st' H]; [vm_compute; discriminate|].
+  exists st'. split; [exact H|]. destruct (F2 st' H) as (E & _ & V). subst st'. split; [reflexivity|].
+  apply V; reflexivity.
+Qed.
+
+(* one signer of a 2-of-3 is not enough: the threshold test refuses *)
+Example finalize_below_threshold_instance :
+  ~ exists st', in_finalize (ex_in [([2; 2], [48; 2])]) ex_ti = Ok st'.
+Proof.
+  intros [st' H]. vm_compute in H. discriminate.
+Qed.
+
+(* the signer on [ex_psbt]: keys named in the input sign, in any order, with the same result *)
+Definition ex_named_psbt : psbt :=
+  {| p_tx := {| t_version := 2; t_ins := [ex_ti]; t_outs := []; t_locktime := 0; t_segwit := false |};
+     p_ins := [set_named (ex_in []) [([2; 1], [0;0;0;0]); ([2; 2], [0;0;0;0]); ([2; 3], [0;0;0;0])]];
+     p_outs := []; p_hd := []; p_extra := [] |}.
+Definition ex_signer (sec : bytes) (_ : tx) (_ : Z) (_ _ : option script) : result bytes := Ok (48 :: sec).
+
+Example sign_order_instance :
+  sign_keys ex_signer (fun _ _ _ _ => Err) [[2; 3]; [2; 1]] ex_named_psbt
+  = sign_keys ex_signer (fun _ _ _ _ => Err) [[2; 1]; [2; 3]] ex_named_psbt
+  /\ exists P, sign_keys ex_signer (fun _ _ _ _ => Err) [[2; 3]; [2; 1]] ex_named_psbt = Ok (P, true) /\
+       option_map pi_sigs (nth_error (p_ins P) 0) = Some [([2; 1], [48; 2; 1]); ([2; 3], [48; 2; 3])].
+Proof. split; [vm_compute; reflexivity|]. eexists. split; vm_compute; reflexivity. Qed.
+
+Example sign_hypotheses_instance :
+  good ex_named_psbt /\ all_fresh [[2; 3]; [2; 1]] ex_named_psbt.
+Proof.
+  split.
+  - constructor; cbn; try (repeat constructor; fail).
+    constructor; [|constructor]. constructor; cbn; try (repeat constructor; fail); discriminate.
+  - repeat constructor.
+Qed.
+
+(* base64 on a concrete PSBT prefix *)
+Example base64_instance :
+  b64_encode magic = [99; 72; 78; 105; 100; 80; 56; 61]                        (* "cHNidP8=" *)
+  /\ b64_decode_str [99; 72; 78; 105; 100; 80; 56; 61] = Ok magic.
+Proof. split; vm_compute; reflexivity. Qed.
+
+(* ------------------------------------------------------------------ *)
+(* (15) the Updater (Model/PsbtUpdate.v: PSBTIn.update / PSBTOut.update).  [stays x y]: a field that
+   is present keeps its value; [stays_some]: a field that is present stays present; [keeps_keys]:
+   no derivation is removed. *)
+From V Require Import Model.PsbtUpdate Proofs.PsbtUpdateP.
+
+Theorem C10_in_update_preserves : forall txl pk rl wl st ti st',
+  in_update txl pk rl wl st ti = Ok st' -> in_update_spec st st'.
+Proof. exact in_update_preserves. Qed.
+Print Assumptions C10_in_update_preserves.
+
+Theorem C10_out_update_preserves : forall pk rl wl st to st',
+  out_update pk rl wl st to = Ok st' -> out_update_spec st st'.
+Proof. exact out_update_preserves. Qed.
+Print Assumptions C10_out_update_preserves.
+
+(* since fix 33b84c2 "the Updater only adds" also holds for the RedeemScript of a P2SH output ([ous_redeem] in
+   [out_update_spec]); the witness of the former defect keeps its RedeemScript *)
+Theorem C10_out_update_keeps_redeem_instance :
+  exists st', out_update [] [] [] uw_out uw_txout = Ok st' /\ po_redeem st' = Some uw_redeem.
+Proof. exact out_update_keeps_redeem_instance. Qed.
+Print Assumptions C10_out_update_keeps_redeem_instance.
+
+(* non-vacuity: a blank P2WSH input is filled from the lookups (witness UTXO, script, one derivation) *)
+Example in_update_instance :
+  let f : tx := {| t_version := 1; t_ins := []; t_outs := [{| o_amount := 5; o_script := mk_script [Op 0; Push (repeatz 9 32)] |}];
+                   t_locktime := 0; t_segwit := false |} in
+  option_map (fun st => (pi_prev_out st, pi_wscript st, pi_named st))
+    (match in_update [(repeatz 1 32, f)] [([2; 2], ([2; 2], [7; 7; 7; 7]))] [] [(repeatz 9 32, ex_ws)] empty_in ex_ti
+     with Ok st => Some st | Err => None end)
+  = Some (Some {| o_amount := 5; o_script := mk_script [Op 0; Push (repeatz 9 32)] |}, Some ex_ws,
+          [([2; 2], [7; 7; 7; 7])]).
+Proof. vm_compute. reflexivity. Qed.
+
+(* ------------------------------------------------------------------ *)
+(* (16) single-key wallets: finalisable exactly with one partial signature; what is emitted verifies
+   (C06 completeness) whenever OP_CHECKSIG accepts the signature *)
+From V Require Proofs.PsbtVerify2P.
+
+Theorem C10_finalize_p2wpkh_verifies :
+  forall C ripemd160 sha1 sha256 hash160 hash256 so c st ti spk,
+  in_script_pubkey st ti = Ok (Some spk) -> is_p2wpkh (s_cmds spk) = true -> pi_redeem st = None ->
+  ((exists st', in_finalize st ti = Ok st') <-> exists sec sg, pi_sigs st = [(sec, sg)]) /\
+  forall sec sg, pi_sigs st = [(sec, sg)] ->
+    in_finalize st ti = Ok (finalized st (mk_script []) (Some [sg; sec])) /\
+    (s_cmds spk = p2wpkh_script (hash160 sec) -> sg <> [] -> Op.so_checksig so sec sg = Ok true ->
+     Verify.verify_input C ripemd160 sha1 sha256 hash160 hash256 so c [sg; sec] [] (s_cmds spk) = Interp.OTrue).
+Proof. exact PsbtVerify2P.finalize_p2wpkh. Qed.
+Print Assumptions C10_finalize_p2wpkh_verifies.
+
+Theorem C10_finalize_p2sh_p2wpkh_verifies :
+  forall C ripemd160 sha1 sha256 hash160 hash256 so c st ti spk rs,
+  in_script_pubkey st ti = Ok (Some spk) -> pi_redeem st = Some rs -> is_p2wpkh (s_cmds rs) = true ->
+  forall raw, raw_serialize rs = Ok raw ->
+  ((exists st', in_finalize st ti = Ok st') <-> exists sec sg, pi_sigs st = [(sec, sg)]) /\
+  forall sec sg, pi_sigs st = [(sec, sg)] ->
+    in_finalize st ti = Ok (finalized st (mk_script [Push raw]) (Some [sg; sec])) /\
+    (raw = 0 :: 20 :: hash160 sec -> s_cmds spk = p2sh_script (hash160 raw) ->
+     length (hash160 sec) = 20%nat -> length (hash160 raw) = 20%nat ->
+     sg <> [] -> Op.so_checksig so sec sg = Ok true ->
+     Verify.verify_input C ripemd160 sha1 sha256 hash160 hash256 so c [sg; sec] [Push raw] (s_cmds spk)
+     = Interp.OTrue).
+Proof. exact PsbtVerify2P.finalize_p2sh_p2wpkh. Qed.
+Print Assumptions C10_finalize_p2sh_p2wpkh_verifies.
+
+Theorem C10_finalize_p2pkh_verifies :
+  forall C ripemd160 sha1 sha256 hash160 hash256 so c st ti spk,
+  in_script_pubkey st ti = Ok (Some spk) -> is_p2pkh (s_cmds spk) = true -> pi_redeem st = None ->
+  ((exists st', in_finalize st ti = Ok st') <-> exists sec sg, pi_sigs st = [(sec, sg)]) /\
+  forall sec sg, pi_sigs st = [(sec, sg)] ->
+    in_finalize st ti = Ok (finalized st (mk_script [Push sg; Push sec]) (pi_witness st)) /\
+    (s_cmds spk = p2pkh_script (hash160 sec) -> sg <> [] -> Op.so_checksig so sec sg = Ok true ->
+     forall w, Verify.verify_input C ripemd160 sha1 sha256 hash160 hash256 so c w [Push sg; Push sec]
+                 (s_cmds spk) = Interp.OTrue).
+Proof. exact PsbtVerify2P.finalize_p2pkh. Qed.
+Print Assumptions C10_finalize_p2pkh_verifies.
+
+(* sign -> finalize -> verify for the other two m-of-n wallet types *)
+Theorem C10_sign_finalize_verify_p2sh_p2wsh :
+  forall sign_segwit sign_legacy C ripemd160 sha1 sha256 hash160 hash256 so c
+         K p P b j a ti spk rs ws m keys raw,
+  let redeem := 0 :: 32 :: sha256 raw in
+  sign_keys sign_segwit sign_legacy K p = Ok (P, b) ->
+  nth_error (p_ins p) j = Some a -> nth_error (t_ins (p_tx p)) j = Some ti ->
+  (forall k, In k keys -> dget (pi_sigs a) k = None) ->
+  in_script_pubkey a ti = Ok (Some spk) ->
+  s_cmds spk = p2sh_script (hash160 redeem) -> length (hash160 redeem) = 20%nat ->
+  pi_redeem a = Some rs -> s_cmds rs = p2wsh_script (sha256 raw) -> s_raw rs = None ->
+  length (sha256 raw) = 32%nat ->
+  pi_wscript a = Some ws ->
+  s_cmds ws = VerifyP.multisig_script m keys -> raw_serialize ws = Ok raw ->
+  Verify.parse_cmds raw = Ok (VerifyP.multisig_script m keys) ->
+  1 <= m <= 16 -> 1 <= zlen keys <= 16 -> NoDup keys ->
+  let signers := filter (fun k => PsbtSignFinalP.mem k K && PsbtSignFinalP.named a k) keys in
+  let got := firstn (Z.to_nat m)
+               (map (PsbtSignFinalP.the_sig sign_segwit sign_legacy (p_tx p) (Z.of_nat j) a ti) signers) in
+  exists x, nth_error (p_ins P) j = Some x /\
+    ((exists x', in_finalize x ti = Ok x') <-> m <= zlen signers) /\
+    forall x', in_finalize x ti = Ok x' ->
+      pi_script_sig x' = Some (mk_script [Push redeem]) /\ pi_witness x' = Some ([] :: got ++ [raw]) /\
+      (VerifyCompleteP.nonempty_sigs got = true -> Op.so_multisig so (rev keys) (rev got) = Ok true ->
+       Verify.verify_input C ripemd160 sha1 sha256 hash160 hash256 so c ([] :: got ++ [raw]) [Push redeem]
+         (s_cmds spk) = Interp.OTrue).
+Proof. exact PsbtVerify2P.sign_finalize_verify_p2sh_p2wsh. Qed.
+Print Assumptions C10_sign_finalize_verify_p2sh_p2wsh.
+
+Theorem C10_sign_finalize_verify_p2sh :
+  forall sign_segwit sign_legacy C ripemd160 sha1 sha256 hash160 hash256 so c
+         K p P b j a ti spk rs m keys raw,
+  sign_keys sign_segwit sign_legacy K p = Ok (P, b) ->
+  nth_error (p_ins p) j = Some a -> nth_error (t_ins (p_tx p)) j = Some ti ->
+  (forall k, In k keys -> dget (pi_sigs a) k = None) ->
+  in_script_pubkey a ti = Ok (Some spk) ->
+  s_cmds spk = p2sh_script (hash160 raw) -> length (hash160 raw) = 20%nat ->
+  pi_redeem a = Some rs ->
+  s_cmds rs = VerifyP.multisig_script m keys -> raw_serialize rs = Ok raw ->
+  Verify.parse_cmds raw = Ok (VerifyP.multisig_script m keys) ->
+  1 <= m <= 16 -> 1 <= zlen keys <= 16 -> NoDup keys ->
+  let signers := filter (fun k => PsbtSignFinalP.mem k K && PsbtSignFinalP.named a k) keys in
+  let got := firstn (Z.to_nat m)
+               (map (PsbtSignFinalP.the_sig sign_segwit sign_legacy (p_tx p) (Z.of_nat j) a ti) signers) in
+  let ss := Op 0 :: map Push got ++ [Push raw] in
+  exists x, nth_error (p_ins P) j = Some x /\
+    ((exists x', in_finalize x ti = Ok x') <-> m <= zlen signers) /\
+    forall x', in_finalize x ti = Ok x' ->
+      pi_script_sig x' = Some (mk_script ss) /\
+      (VerifyCompleteP.nonempty_sigs got = true -> Op.so_multisig so (rev keys) (rev got) = Ok true ->
+       forall w, Verify.verify_input C ripemd160 sha1 sha256 hash160 hash256 so c w ss (s_cmds spk)
+                 = Interp.OTrue).
+Proof. exact PsbtVerify2P.sign_finalize_verify_p2sh. Qed.
+Print Assumptions C10_sign_finalize_verify_p2sh.
+
+(* ------------------------------------------------------------------ *)
+(* (17) codec meets combiner: every dictionary of a PSBT returned by PSBT.parse is strictly sorted, hence
+   a parsed PSBT satisfies the [good] hypothesis of the combiner / order-independence theorems unless it
+   carries one of the two values the combiner treats as absent *)
+From V Require Import Proofs.PsbtParseSortedP.
+
+Theorem C10_parse_sorted :
+  forall hash160 sha256 hash256 sec_ok sig_parse_ok ecdsa_verify sighash_legacy sighash_segwit
+         verify_input descends s p n,
+  psbt_parse hash160 sha256 hash256 sec_ok sig_parse_ok ecdsa_verify sighash_legacy sighash_segwit
+             verify_input descends s = Ok (p, n) ->
+  psbt_sorted p /\
+  (Forall (fun st => pi_hash_type st <> Some 0 /\ pi_witness st <> Some []) (p_ins p) -> good p).
+Proof.
+  intros. split; [eapply psbt_parse_sorted; eauto|]. intros F. eapply psbt_parse_good; eauto.
+Qed.
+Print Assumptions C10_parse_sorted.
+
+(* ------------------------------------------------------------------ *)
+(* (18) framing: magic / separator are exact on both sides; compact sizes need not be minimal *)
+From V Require Import Proofs.PsbtFramingP.
+
+Theorem C10_magic_exact :
+  forall hash160 sha256 hash256 sec_ok sig_parse_ok ecdsa_verify sighash_legacy sighash_segwit
+         verify_input descends,
+  (forall s p n,
+     psbt_parse hash160 sha256 hash256 sec_ok sig_parse_ok ecdsa_verify sighash_legacy sighash_segwit
+                verify_input descends s = Ok (p, n) -> exists rest, s = magic ++ rest) /\
+  (forall p b, psbt_serialize p = Ok b -> exists rest, b = magic ++ rest).
+Proof. intros. split; [intros s p n; apply psbt_parse_magic|exact psbt_serialize_magic]. Qed.
+Print Assumptions C10_magic_exact.
+
+Theorem C10_kv_parse_nonminimal_length_refuted :
+  kv_parse [1; 7; 1; 9; 0] = Ok ([([7], [9])], []) /\
+  kv_parse [253; 1; 0; 7; 254; 1; 0; 0; 0; 9; 0] = Ok ([([7], [9])], []) /\
+  kv_serialize [([7], [9])] = Ok [1; 7; 1; 9; 0].
+Proof. exact kv_parse_nonminimal_length_refuted. Qed.
+Print Assumptions C10_kv_parse_nonminimal_length_refuted.
+
+(* ------------------------------------------------------------------ *)
+(* (19) the workflow at the level of whole PSBTs *)
+From V Require Import Proofs.PsbtWorkflowP.
+
+(* every signer signs its own copy; the copies are combined in any order: that is the PSBT signed with
+   all keys on one object *)
+Theorem C10_separate_signers_any_combination_order :
+  forall sign_segwit sign_legacy base keys cs l',
+  good base -> all_fresh keys base ->
+  sign_each sign_segwit sign_legacy keys base = Ok cs ->
+  Permutation (map fst cs) l' ->
+  sign_keys sign_segwit sign_legacy keys base = Ok (fold_left comb l' base, existsb snd cs) /\
+  psbt_serialize (fold_left comb l' base) = psbt_serialize (fold_left comb (map fst cs) base).
+Proof. exact separate_signers_any_combination_order. Qed.
+Print Assumptions C10_separate_signers_any_combination_order.
+
+(* PSBT.finalize succeeds exactly when every input can be finalised; then every input has a final
+   scriptSig and the extractor's assembly exists *)
+Theorem C10_finalize_whole : forall p : psbt,
+  length (p_ins p) = length (t_ins (p_tx p)) ->
+  ((exists p', finalize p = Ok p') <->
+   forall j st ti, nth_error (p_ins p) j = Some st -> nth_error (t_ins (p_tx p)) j = Some ti ->
+                   exists st', in_finalize st ti = Ok st') /\
+  forall p', finalize p = Ok p' ->
+    p_tx p' = p_tx p /\ p_outs p' = p_outs p /\ p_hd p' = p_hd p /\ p_extra p' = p_extra p /\
+    length (p_ins p') = length (p_ins p) /\
+    (forall j st ti, nth_error (p_ins p) j = Some st -> nth_error (t_ins (p_tx p)) j = Some ti ->
+       exists st', nth_error (p_ins p') j = Some st' /\ in_finalize st ti = Ok st') /\
+    (forall t0, tx_clone (p_tx p) = Ok t0 -> length (t_ins t0) = length (p_ins p) ->
+       exists t, assemble_tx p' = Ok t).
+Proof. exact finalize_whole. Qed.
+Print Assumptions C10_finalize_whole.
+
+Theorem C10_in_finalize_shape : forall st ti st',
+  in_finalize st ti = Ok st' ->
+  pi_script_sig st' <> None /\ pi_sigs st' = [] /\ pi_named st' = [] /\ pi_redeem st' = None /\
+  pi_wscript st' = None /\ pi_hash_type st' = None /\
+  pi_prev_tx st' = pi_prev_tx st /\ pi_prev_out st' = pi_prev_out st /\ pi_extra st' = pi_extra st.
+Proof. exact in_finalize_shape. Qed.
+Print Assumptions C10_in_finalize_shape.
+
+(* ------------------------------------------------------------------ *)
+(* (20) the sighash-type entry (since fix afccdfa): accepted exactly when the value is four bytes long, and an
+   accepted value is what the serialiser writes back — a loaded sighash type can always be serialised.
+   (Before the fix a longer value was loaded as an integer >= 2^32 and serialize() raised OverflowError.) *)
+From V Require Import Proofs.PsbtSighashP.
+
+Theorem C10_sighash_entry_exact : forall sec_ok fuel net ti v e rest st,
+  kv [3] v = Ok e -> zlen v < 9223372036854775808 -> truthy_int (pi_hash_type st) = false ->
+  in_loop sec_ok (S fuel) net ti (e ++ rest) st =
+    if (length v =? 4)%nat
+    then in_loop sec_ok fuel net ti rest (set_hash_type st (Some (from_le v)))
+    else Err.
+Proof. exact sighash_entry_exact. Qed.
+Print Assumptions C10_sighash_entry_exact.
+
+Theorem C10_sighash_value_reserialises : forall v,
+  bytes_ok v -> length v = 4%nat ->
+  0 <= from_le v < 4294967296 /\ int_to_le (from_le v) 4 = Ok v.
+Proof. exact sighash_value_reserialises. Qed.
+Print Assumptions C10_sighash_value_reserialises.
+
+Theorem C10_five_byte_sighash_type_refused :
+  forall hash160 sha256 hash256 sec_ok sig_parse_ok ecdsa_verify sighash_legacy sighash_segwit
+         verify_input descends,
+  psbt_parse hash160 sha256 hash256 sec_ok sig_parse_ok ecdsa_verify sighash_legacy
+             sighash_segwit verify_input descends hw_bytes = Err.
+Proof. exact five_byte_sighash_type_refused. Qed.
+Print Assumptions C10_five_byte_sighash_type_refused.
+
+(* ------------------------------------------------------------------ *)
+(* (21) the Updater on what the Creator hands over (a blank map) with CONSISTENT lookups leaves maps that
+   PSBTIn.validate / PSBTOut.validate accept, for every script type: what update() adds is consistent
+   with the transaction.  [lookups_ok]: tx_lookup[id] has that id, redeem_lookup[h] / witness_lookup[s]
+   hash to their keys, pubkey_lookup[hash160 sec] is the key with that hash, and the keys found for the
+   commands of a multisig script are those commands. *)
+From V Require Import Proofs.PsbtUpdateValidP.
+
+Theorem C10_in_update_blank_validates : forall hash160 sha256 hash256 txl pk rl wl ti st',
+  lookups_ok hash160 sha256 hash256 txl pk rl wl ->
+  in_update txl pk rl wl empty_in ti = Ok st' ->
+  in_validate hash160 sha256 hash256 st' ti = Ok tt.
+Proof. exact in_update_blank_validates. Qed.
+Print Assumptions C10_in_update_blank_validates.
+
+Theorem C10_out_update_blank_validates : forall hash160 sha256 hash256 txl pk rl wl to st',
+  lookups_ok hash160 sha256 hash256 txl pk rl wl ->
+  out_update pk rl wl empty_out to = Ok st' ->
+  out_validate hash160 sha256 st' to = Ok tt.
+Proof. exact out_update_blank_validates. Qed.
+Print Assumptions C10_out_update_blank_validates.
+
+(* non-vacuity: consistent lookups for the 2-of-3 P2WSH wallet of the examples (hash oracle as above) *)
+Example lookups_ok_instance :
+  lookups_ok (fun _ => repeatz 7 20) (fun _ => repeatz 9 32) (fun _ => repeatz 1 32)
+    [(repeatz 1 32, {| t_version := 1; t_ins := [];
+                       t_outs := [{| o_amount := 5; o_script := mk_script [Op 0; Push (repeatz 9 32)] |}];
+                       t_locktime := 0; t_segwit := false |})]
+    [([2; 2], ([2; 2], [7; 7; 7; 7]))] [] [(repeatz 9 32, ex_ws)].
+Proof.
+  assert (D : forall {V} (k k0 : bytes) (v x : V), dget [(k0, v)] k = Some x -> k = k0 /\ x = v).
+  { intros V k k0 v x H. cbn in H. destruct (bcmp k k0) eqn:E; try discriminate.
+    apply bcmp_eq in E. inversion H. auto. }
+  constructor.
+  - intros k t H. apply D in H as [-> ->]. vm_compute. reflexivity.
+  - intros h r H. discriminate H.
+  - intros s w H. apply D in H as [-> ->]. vm_compute. reflexivity.
+  - intros h sec path L H. apply D in H as [-> _]. discriminate L.
+  - intros s w H c sec path Hc Hg. apply D in H as [-> ->]. cbn in Hc.
+    destruct Hc as [<-|[<-|[<-|[<-|[<-|[<-|[]]]]]]]; cbn in Hg; try discriminate Hg. inversion Hg. reflexivity.
+  - intros h r H. discriminate H.
+Qed.
+
+(* ------------------------------------------------------------------ *)
+(* (22) Creator + Updater: PSBT.update applied to the bare PSBT of an unsigned transaction (blank maps,
+   no global xpubs: what PSBT.create builds before it calls update) with consistent lookups gives a PSBT
+   that PSBT.validate accepts, whatever part of the lookups is missing *)
+From V Require Import Proofs.PsbtCreateValidP.
+
+Theorem C10_update_bare_validates :
+  forall hash160 sha256 hash256 sig_parse_ok ecdsa_verify sighash_legacy sighash_segwit verify_input descends
+         txl pk rl wl (t : tx) extra p',
+  lookups_ok hash160 sha256 hash256 txl pk rl wl ->
+  Forall (fun ti => s_cmds (i_script ti) = []) (t_ins t) ->
+  psbt_update txl pk rl wl (bare t extra) = Ok p' ->
+  validate hash160 sha256 hash256 sig_parse_ok ecdsa_verify sighash_legacy sighash_segwit verify_input
+           descends p' = Ok tt.
+Proof. intros. eapply update_bare_validates; eauto. Qed.
+Print Assumptions C10_update_bare_validates.
+
+(* ------------------------------------------------------------------ *)
+(* (23) PSBT.sign(hd_priv) (Model/PsbtSignHd.v) changes nothing but partial signatures *)
+From V Require Import Model.PsbtSignHd Proofs.PsbtSignHdP.
+
+Theorem C10_sign_hd_only_sigs : forall sign_segwit sign_legacy derive fp p P b,
+  sign_hd sign_segwit sign_legacy derive fp p = Ok (P, b) ->
+  p_tx P = p_tx p /\ p_outs P = p_outs p /\ p_hd P = p_hd p /\ p_extra P = p_extra p /\
+  Forall2 (fun a x => exists s, x = set_sigs a s) (p_ins p) (p_ins P).
+Proof. exact sign_hd_only_sigs. Qed.
+Print Assumptions C10_sign_hd_only_sigs.
+
+(* non-vacuity: the root whose fingerprint the derivations of [ex_named_psbt] carry signs, another does not *)
+Example sign_hd_instance :
+  (exists P, sign_hd ex_signer (fun _ _ _ _ => Err) (fun path => Ok (2 :: firstn 1 path)) [0; 0; 0; 0] ex_named_psbt
+             = Ok (P, true)) /\
+  sign_hd ex_signer (fun _ _ _ _ => Err) (fun path => Ok (2 :: firstn 1 path)) [9; 9; 9; 9] ex_named_psbt
+  = Ok (ex_named_psbt, false).
+Proof. split; [eexists|]; vm_compute; reflexivity. Qed.
